@@ -223,7 +223,7 @@ def controlRead : Family := { name := "control_read", gen := controlReadGen, eva
 
 def controlTotalEval (args : List String) : String :=
   match args with
-  | [file] => okOrPanic (Model.parseControlFile (unhex file))
+  | [file] => ctlOkOrPanic (Model.parseControlFile (unhex file))
   | _ => "bad-args"
 
 def malformedControl (seed idx : Nat) : Bytes :=
@@ -247,7 +247,7 @@ def malformedControl (seed idx : Nat) : Bytes :=
 
 def controlTotalGen (seed idx _size : Nat) : Case :=
   let file := malformedControl seed idx
-  { tags := [if file.length < 296 then "len<296" else "len>=296"], model := okOrPanic (Model.parseControlFile file),
+  { tags := [if file.length < 296 then "len<296" else "len>=296"], model := ctlOkOrPanic (Model.parseControlFile file),
     spec := "ok", args := [hexRle file] }
 
 def controlTotal : Family := { name := "control_total", gen := controlTotalGen, eval := controlTotalEval, fixed := 8 }
